@@ -10,7 +10,7 @@ CLAIM = {
             'the consumer.',
     'note': 'Trusted: clang CFG, extractor, FIFO behaviour of the queue (C30). The FastFlow configuration of the build is analysed '
             '(FIX8_MPMC_SYSTEM == FIX8_MPMC_FF). Undecided: interleavings of producers, exactly-once over schedules.',
-    'technique': 'symbolic polarity evaluation; must-pass-through on the consumer loop CFG; order (dominance); who-may-write',
+    'technique': 'symbolic polarity evaluation; must-pass-through on the consumer loop CFG; order (dominance); who-may-write; no-exit-after-failed-poll reachability; sub-queue rules of C30',
 }
 UNITS = ['runtime/logger.cpp']
 EXPLANATION = (
